@@ -94,7 +94,10 @@ def _cases(draw, op=None):
     via = draw(st.sampled_from(['file', 'memory']))
     seedpos = draw(st.lists(st.integers(0, 10 ** 6), min_size=12, max_size=12))
     return {'op': op, 'resource': res, 'initial': initial, 'via': via,
-            'positions': seedpos, 'style': draw(xmlw.styles())}
+            'positions': seedpos, 'style': draw(xmlw.styles()),
+            # connections shared between threads (wn.config.allow_multithreading) must be as
+            # transactional as the default ones
+            'multithreading': draw(st.integers(0, 2)) == 0}
 
 
 def _unrelated():
@@ -250,6 +253,18 @@ _LAST: dict = {}
 
 
 def oracle(case, thorough=False):
+    """The fault enumeration, under the connection settings the case asks for."""
+    import wn
+    env.close_pool()
+    wn.config.allow_multithreading = bool(case.get('multithreading'))
+    try:
+        return _oracle(case, thorough)
+    finally:
+        env.close_pool()
+        wn.config.allow_multithreading = False
+
+
+def _oracle(case, thorough=False):
     import wn
     _LAST.clear()
     import wn._db
@@ -489,6 +504,8 @@ def _classify(case):
         tags.append('extension')
     if len(case['resource']['lexicons']) > 1:
         tags.append('multi-lexicon')
+    if case.get('multithreading'):
+        tags.append('multithreading-allowed')
     tags = sorted(set(tags))
     # one tag occurrence per injected fault, by kind and outcome (the class histogram
     # therefore counts fault injections, not documents)
@@ -613,7 +630,7 @@ SUBS = [
         fingerprint=_fp, sample=_sample, purge_every=1,
         require_tags=('progress:rolled-back', 'progress-baseexception:rolled-back',
                       'authorizer:rolled-back', 'trigger:rolled-back',
-                      'op:remove')),
+                      'op:remove', 'multithreading-allowed')),
     Sub('faults-all-positions', oracle_all, _classify,
         strategy=lambda tier: _cases(), budget={'quick': 4, 'thorough': 100},
         fingerprint=_fp, sample=_sample, purge_every=1),
